@@ -2089,7 +2089,9 @@ class Measurement:
             return NotImplemented
 
         measurand = self.measurand * other.measurand
-        uncertainty = self._join_uncertainties(measurand, other)
+        uncertainty = self._join_uncertainties(
+            other, other.measurand.magnitude, self.measurand.magnitude
+        )
         return Measurement(measurand, uncertainty)
 
     __rmul__ = __mul__
@@ -2102,25 +2104,20 @@ class Measurement:
             return NotImplemented
 
         measurand = self.measurand / other.measurand
-        uncertainty = self._join_uncertainties(measurand, other)
+        uncertainty = self._join_uncertainties(
+            other,
+            _div(1, other.measurand.magnitude),
+            _div(self.measurand.magnitude, _pow(other.measurand.magnitude, 2)),
+        )
         return Measurement(measurand, uncertainty)
 
-    def _join_uncertainties(self, measurand: Quantity, other: "Measurement") -> float:
+    def _join_uncertainties(
+        self, other: "Measurement", self_slope: Numeric, other_slope: Numeric
+    ) -> float:
         return math.sqrt(
-            _mul(
-                _pow(measurand.magnitude, 2),
-                (
-                    _add(
-                        _div(
-                            _pow(self.uncertainty.magnitude, 2),
-                            _pow(self.measurand.magnitude, 2),
-                        ),
-                        _div(
-                            _pow(other.uncertainty.magnitude, 2),
-                            _pow(other.measurand.magnitude, 2),
-                        ),
-                    )
-                ),
+            _add(
+                _pow(_mul(self_slope, self.uncertainty.magnitude), 2),
+                _pow(_mul(other_slope, other.uncertainty.magnitude), 2),
             )
         )
 
